@@ -15,6 +15,11 @@ func genJoinTable(r *Rand, maxRows int, cols []string, strCol string) []any {
 			row[c] = Pick(r, nums)
 		}
 		row[strCol] = Pick(r, strs)
+		// a second string key column whose text concatenates ambiguously with the first
+		row[strCol+"2"] = Pick(r, []string{"c", "bc", "", "-", "a"})
+		if r.Chance(40) {
+			row[strCol] = Pick(r, []string{"ab", "a", "abc", ""})
+		}
 		if r.Chance(8) {
 			row[cols[0]] = nil
 		}
@@ -29,8 +34,11 @@ func genJoinTable(r *Rand, maxRows int, cols []string, strCol string) []any {
 func genOn(r *Rand, lcols, rcols []string, lstr, rstr string, tags *[]string) *Expr {
 	cmp := func(op string) *Expr {
 		var a, b *Expr
-		if r.Chance(25) {
+		if r.Chance(35) {
 			a, b = Col("x", lstr), Col("y", rstr)
+			if r.Bool() {
+				a, b = Col("x", lstr+"2"), Col("y", rstr+"2")
+			}
 		} else {
 			a, b = Col("x", Pick(r, lcols)), Col("y", Pick(r, rcols))
 		}
